@@ -76,7 +76,10 @@ class Lifespan:
         if not self.supported:
             return
 
-        await self.app_send_channel.send({"type": "lifespan.startup"})
+        try:
+            await self.app_send_channel.send({"type": "lifespan.startup"})
+        except (trio.BrokenResourceError, trio.ClosedResourceError):
+            pass  # The app has already left the lifespan scope
         try:
             with trio.fail_after(self.config.startup_timeout):
                 await self.startup.wait()
@@ -90,7 +93,10 @@ class Lifespan:
         if not self.supported:
             return
 
-        await self.app_send_channel.send({"type": "lifespan.shutdown"})
+        try:
+            await self.app_send_channel.send({"type": "lifespan.shutdown"})
+        except (trio.BrokenResourceError, trio.ClosedResourceError):
+            pass  # The app has already left the lifespan scope
         try:
             with trio.fail_after(self.config.shutdown_timeout):
                 await self.shutdown.wait()
